@@ -116,11 +116,11 @@ func TestC16(t *testing.T) {
 		h, f := newChunked()
 		f.LogValues = true
 		for _, vl := range lens {
-			for _, path := range []string{"set", "add", "replace", "append", "prepend", "append-foreign", "prepend-foreign"} {
+			for _, path := range []string{"set", "add", "replace", "append", "prepend", "append-foreign", "prepend-foreign", "set-transient"} {
 				if vl > 20*p && path != "set" && path != "append" {
 					continue
 				}
-				if strings.HasSuffix(path, "-foreign") && (vl == 0 || vl > 3*p+1) {
+				if (strings.HasSuffix(path, "-foreign") || path == "set-transient") && (vl == 0 || vl > 3*p+1) {
 					continue
 				}
 				f.Reset()
@@ -170,6 +170,47 @@ func TestC16(t *testing.T) {
 					}
 					run(wire.Cmd{Kind: k, Key: key, Value: rest})
 					want = val
+				case "set-transient":
+					// the backend answers the store of the last chunk with "busy" or "temporary
+					// failure" once: whether the handler gives up or tries again, every entry
+					// that is stored must have the one size
+					last := key + "-" + strconv.Itoa((vl+p-1)/p-1)
+					status := uint16(0x85)
+					if (kl+vl)%2 == 0 {
+						status = 0x86
+					}
+					fired := false
+					f.Arm(&fakemc.Fault{Kind: fakemc.FaultStatus, Status: status, Match: func(r *fakemc.Req) bool {
+						if !fired && r.Key == last && (r.Opcode == fakemc.OpSet || r.Opcode == fakemc.OpSetQ) {
+							fired = true
+							return true
+						}
+						return false
+					}})
+					res, _ := execHandler(h, wire.Cmd{Kind: wire.Set, Key: key, Value: val, Flags: flags}, 0)
+					f.Disarm()
+					if res.Err != nil {
+						// refused: what did get stored still has to follow the discipline
+						for _, r := range f.Log() {
+							if (r.Opcode == fakemc.OpSet || r.Opcode == fakemc.OpSetQ) && r.Status == 0 && r.Key != key+"-meta" && r.ValueLen != p+tokenLen {
+								t.Fatalf("C16 keylen %d valuelen %d path %s: entry %q stored with value length %d, want %d", kl, vl, path, r.Key, r.ValueLen, p+tokenLen)
+							}
+						}
+						rec.Class("store-refused-after-transient-failure")
+						rec.Case(true, fmt.Sprintf("%d|%d|%s", kl, vl, path), "path:"+path)
+						h.Close()
+						h = chunkedOn(f) // the handler's connection state after an error is not this test's business
+						continue
+					}
+					// accepted after all: the log holds the refused attempt and the retry; judge what is stored
+					for _, r := range f.Log() {
+						if (r.Opcode == fakemc.OpSet || r.Opcode == fakemc.OpSetQ) && r.Status == 0 && r.Key != key+"-meta" && r.ValueLen != p+tokenLen {
+							rp := rec.Violation("TestC16Replay", map[string]interface{}{"keylen": kl, "valuelen": vl, "path": path})
+							t.Fatalf("C16 keylen %d valuelen %d path %s (status %#x on the store of %q, then accepted): entry %q stored with value length %d, want %d; replay %s", kl, vl, path, status, last, r.Key, r.ValueLen, p+tokenLen, rp)
+						}
+					}
+					rec.Case(true, fmt.Sprintf("%d|%d|%s", kl, vl, path), "path:"+path)
+					continue
 				case "append-foreign", "prepend-foreign":
 					// the key already holds an item another writer stored with a different
 					// per-chunk payload (it reads back fine); what this handler writes on
